@@ -85,7 +85,11 @@ class Ctx:
             cov = os.environ["VERIF_COVERAGE"]
             os.makedirs(cov, exist_ok=True)
             env["COVERAGE_CORE"] = "sysmon"
-            cmd = [build.PY, "-m", "coverage", "run", "-p", "--data-file=" + os.path.join(cov, "cov." + self.pid.lower()),
+            rc = os.path.join(cov, "coveragerc")
+            if not os.path.exists(rc):
+                with open(rc, "w") as f:
+                    f.write("[run]\nparallel = true\nconcurrency = multiprocessing,thread\nsigterm = true\n")
+            cmd = [build.PY, "-m", "coverage", "run", "--rcfile=" + rc, "-p", "--data-file=" + os.path.join(cov, "cov." + self.pid.lower()),
                    "--include=" + os.path.join(self.lib, "Crypto", "*")] + cmd[1:]
             timeout *= 4
         env["VERIF_SEED"] = str(self.seed)
